@@ -1,13 +1,20 @@
 /-
   Model of the parallel map that runs one operation (property C08).
 
-    cubed/runtime/asyncio.py   async_map_unordered        ↦ `init`, `waitPhase`, `procOne`, `launchOne`, `refill`,
-                                                             `stepRound`, `run`
-    cubed/runtime/backup.py    should_launch_backup       ↦ `shouldLaunch`
-    cubed/runtime/utils.py     batched                    ↦ `batched`
+    cubed/runtime/asyncio.py   async_map_unordered
+        code before the loop (first batch, bookkeeping)      ↦ `init`, `submitBatch`, `submitOne`
+        `finished, pending = await asyncio.wait(...)`        ↦ `waitPhase` (+ `dedup`)
+        `for task in finished:` body                         ↦ `procOne` (`succeed` = end_times / yield / remove backup), `procAll`
+        `backup.done()`                                      ↦ `isDone`
+        `for task in copy.copy(pending):` body               ↦ `launchOne` (`addBackup` = "launch backup task"), `launchAll`,
+                                                               iteration order `pendOrderOf`
+        `if batch_size is not None and len(pending) < …`     ↦ `refill`
+        one iteration of `while pending:` / the whole loop   ↦ `stepRound` / `runLoop`, `run`
+    cubed/runtime/backup.py    should_launch_backup          ↦ `shouldLaunch` (`durations`, `durOf`, `isort` = `sorted`, `ceilDiv`)
+    cubed/runtime/utils.py     batched                       ↦ `batched`
     cubed/runtime/executors/local.py
         threads_create_futures_func (tenacity Retrying(reraise=True, stop=stop_after_attempt(retries+1)))
-                                                          ↦ `retrying`, `callWithRetries`
+                                                             ↦ `retrying`, `callWithRetries`
 
   Modelling decisions
   * Futures are named by their creation index (`nextId` counts `create_futures_func` / `create_backup_futures_func`
